@@ -21,7 +21,7 @@ def run(ctx):
     for i, sp in enumerate(specs):
         rng = random.Random(str(sp['seed']) + '/fix')
         if 'fix' not in sp['opts']:
-            mode = 'date' if sp['id'].startswith('c15dst_') and rng.random() < 0.7 else rng.choice(['prefix', 'prefix', 'subset', 'index', 'date'])
+            mode = 'date' if sp['id'].startswith('c15dst_') and rng.random() < 0.7 else rng.choice(['prefix', 'prefix', 'subset', 'index', 'date', 'boollist'])
             sp['opts']['fix'] = {'mode': mode, 'k': rng.randint(0, 20)}
     specs = ctx.specs(specs)
     res = C.run_impl('fixwindow', specs)
@@ -69,6 +69,12 @@ def run(ctx):
                 bad['variable outside the window not free (changed prices)'] = free[:5]
         elif 'fixed3_error' in o:
             bad['set-up with changed prices'] = o['fixed3_error']
+        ru = o.get('reuse')
+        if ru and 'error' not in ru:
+            if not ru['dict_unchanged']:
+                bad['the caller\'s dictionary was rewritten (date -> mask)'] = True
+            if not ru['same_bounds']:
+                bad['the same dictionary used on the next grid pins other steps than a new dictionary'] = True
         if bad:
             ctx.violation('impl-violation', {'spec': sp, 'window_steps': sorted(steps), 'observed': bad,
                                              'expected': 'variables with a mapping row in the window: l = u = previous value; all others untouched; optimum unchanged'},
